@@ -78,6 +78,8 @@ def drifted_instance(inst, drifted=None):
     names = []
     if inst.startswith("at:"):
         names = [st.split(",")[0] for st in inst[3:].split("/")[1:]]
+    elif inst.startswith("in:"):
+        names = ["fromiter", inst.split("/")[-1].split(",")[0]]
     elif inst.startswith("chain:"):
         names = [st.split(",")[0] for st in inst[6:].split("/")]
     else:
